@@ -155,7 +155,13 @@ fn main() {
                 std::process::exit(2)
             };
             let t0 = Instant::now();
-            let rep = (p.run)(&cfg);
+            let rep = match util::catch(|| (p.run)(&cfg)) {
+                Ok(r) => r,
+                Err(e) => {
+                    eprintln!("vp: harness failure (infrastructure error, not a violation): {e}");
+                    std::process::exit(2);
+                }
+            };
             let wall = t0.elapsed().as_secs_f64();
             write_evidence(&cfg, &rep, wall);
             for l in &rep.known_lines {
